@@ -74,9 +74,37 @@ impl<const N: usize> error::TexError for OutOfBoundsError<N> {
 
 impl Parsable for char {
     fn parse_impl<S: TexlangState>(input: &mut vm::ExpandedStream<S>) -> txl::Result<Self> {
-        let u1 = Uint::<{ char::MAX as usize }>::parse(input)?;
-        let u2: u32 = u1.0.try_into().unwrap();
-        Ok(char::from_u32(u2).unwrap())
+        let (first_token, i, _) = parse_integer(input)?;
+        match u32::try_from(i).ok().and_then(char::from_u32) {
+            Some(c) => Ok(c),
+            None => {
+                input.error(InvalidCharacterCodeError {
+                    first_token,
+                    got: i,
+                })?;
+                Ok('\0')
+            }
+        }
+    }
+}
+
+#[derive(Debug)]
+struct InvalidCharacterCodeError {
+    first_token: token::Token,
+    got: i32,
+}
+
+impl error::TexError for InvalidCharacterCodeError {
+    fn kind(&self) -> error::Kind {
+        error::Kind::Token(self.first_token)
+    }
+
+    fn title(&self) -> String {
+        format!(
+            "expected a character code (an integer in the range [0, {}] that is not a surrogate), got {}",
+            char::MAX as u32,
+            self.got
+        )
     }
 }
 
